@@ -7,6 +7,7 @@ import Resolvo.MDet.Graph
 import Resolvo.Abs.Decide
 import Resolvo.Render
 import Resolvo.RenderTruth
+import Resolvo.MDet.ModelGraph
 /-! Driver for the solver families: evaluates the oracles on the implementation's outputs. -/
 namespace Resolvo.Drv
 open Resolvo
@@ -16,6 +17,8 @@ def natList (l : List Nat) : String := " ".intercalate (l.map toString)
 /-- Well-formedness of a generated universe (what the provider contract requires). -/
 def wfB (U : Universe) : Bool :=
   candsKnownB U &&
+  -- the provider contract the truthfulness theorems assume (C03.edges_truthful_exact_model)
+  Resolvo.MDet.wfuB U &&
   -- every listed candidate carries the package's name
   U.pkgs.all (fun np => np.2.cands.all (fun c => U.nameOf c == np.1)) &&
   -- every solvable with a table entry is listed by its package (if the package exists)
@@ -298,7 +301,11 @@ def mdetCompare (U : Universe) (ms : Resolvo.MDet.S) (o : Resolvo.MDet.Outcome) 
         let me := Resolvo.MDet.sortStr (edges.map Resolvo.MDet.edgeStr)
         if me != r.graphEdges then [s!"oracle-fail C03,C06 mdet-graph: conflict graph edges differ: implementation [{" ".intercalate r.graphEdges}] model [{" ".intercalate me}]"]
         else if mn != r.graphNodes then [s!"oracle-fail C03,C06 mdet-graph: conflict graph nodes differ: implementation [{" ".intercalate r.graphNodes}] model [{" ".intercalate mn}]"]
-        else []
+        else
+          -- the object of `C03.edges_truthful_exact_model`: the ordered graph built from the model's own final state
+          let own := Resolvo.MDet.sortStr ((Resolvo.Render.nodeEdges (Resolvo.MDet.modelGraph U ms mconf)).map (fun x => Resolvo.MDet.edgeStr ⟨x.1, x.2.1, x.2.2⟩))
+          if own != r.graphEdges then [s!"oracle-fail C03,C06 mdet-graph-own: the graph built from the model's own clause arena has other edges: implementation [{" ".intercalate r.graphEdges}] model [{" ".intercalate own}]"]
+          else ["info mdet-graph-own 1"]
       else []
     g ++ ["info mdet-exact 1"]
 
